@@ -140,6 +140,37 @@ type network struct {
 	deadPings map[enode.ID]int
 	pings     int
 	enrReqs   int
+	// gated mode (sequential histories): a ping blocks until the harness releases it, so
+	// that revalidation responses are only ever in flight inside the clock-advance step.
+	gated   bool
+	closed  bool
+	waiting []*gate
+	onPing  func(n *enode.Node) // optional observer (crash scenario)
+}
+
+type gate struct {
+	id enode.ID
+	ch chan struct{}
+}
+
+func (nw *network) takeWaiting() []*gate {
+	nw.mu.Lock()
+	defer nw.mu.Unlock()
+	w := nw.waiting
+	nw.waiting = nil
+	return w
+}
+
+// shutdown releases all blocked pings (used before closing the table).
+func (nw *network) shutdown() {
+	nw.mu.Lock()
+	nw.closed = true
+	w := nw.waiting
+	nw.waiting = nil
+	nw.mu.Unlock()
+	for _, g := range w {
+		close(g.ch)
+	}
 }
 
 var errTimeout = errors.New("simulated timeout")
@@ -148,6 +179,18 @@ func (nw *network) ping(n *enode.Node) (uint64, error) {
 	nw.mu.Lock()
 	defer nw.mu.Unlock()
 	nw.pings++
+	if f := nw.onPing; f != nil {
+		nw.mu.Unlock()
+		f(n)
+		nw.mu.Lock()
+	}
+	if nw.gated && !nw.closed {
+		g := &gate{n.ID(), make(chan struct{})}
+		nw.waiting = append(nw.waiting, g)
+		nw.mu.Unlock()
+		<-g.ch
+		nw.mu.Lock()
+	}
 	if nw.dead[n.ID()] {
 		nw.deadPings[n.ID()]++
 		return 0, errTimeout
@@ -184,6 +227,7 @@ type history struct {
 	log    []string
 	lmu    sync.Mutex
 	conc   bool
+	taint  map[enode.ID]bool // see releasePings
 }
 
 func (h *history) logf(f string, a ...any) {
@@ -607,20 +651,58 @@ func (h *history) queryNodes() {
 
 func (h *history) shape(s string) { h.r.Eval(s) }
 
-// settle gives the table loop and the revalidation goroutines a chance to finish what the
-// last clock advance started. It is a best effort (coverage only): no verdict relies on it.
-func (h *history) settle() {
-	last := -1
-	for i := 0; i < 40; i++ {
+// releasePings lets the blocked revalidation pings answer one at a time and waits until the
+// table shows the effect of each response (liveness counter changed or node gone) before
+// going on, so that no response is in flight when the next operation starts. The waiting is
+// bounded; a node whose response could not be observed is "tainted": the harness does not
+// call deleteNode on it any more (see the report: deleteNode racing with a revalidation
+// response crashes the table loop). No verdict depends on the timing.
+func (h *history) releasePings() {
+	for round := 0; round < 4; round++ {
 		h.barrier()
-		runtime.Gosched()
-		h.nw.mu.Lock()
-		p := h.nw.pings
-		h.nw.mu.Unlock()
-		if p == last && i >= 6 {
+		h.barrier()
+		for i := 0; i < 20; i++ {
+			runtime.Gosched()
+		}
+		gates := h.nw.takeWaiting()
+		if len(gates) == 0 {
 			return
 		}
-		last = p
+		for _, g := range gates {
+			pre := h.check(h.tab.VerifSnapshot(), "clock advance")
+			_, isEntry := pre.entries[g.id]
+			c0 := pre.checks[g.id]
+			close(g.ch)
+			h.r.Count("pings_released", 1)
+			if !isEntry {
+				// response belongs to a node that is gone: it is dropped by the table
+				h.taint[g.id] = true
+				continue
+			}
+			seen := false
+			for i := 0; i < 20000 && !seen; i++ {
+				h.barrier()
+				st := h.tab.VerifGetNode(g.id)
+				if st == nil {
+					seen = true
+					break
+				}
+				post := h.check(h.tab.VerifSnapshot(), "clock advance")
+				if _, ok := post.entries[g.id]; !ok || post.checks[g.id] != c0 {
+					seen = true
+					break
+				}
+				if i > 50 {
+					time.Sleep(50 * time.Microsecond)
+				} else {
+					runtime.Gosched()
+				}
+			}
+			if !seen {
+				h.taint[g.id] = true
+				h.r.Count("ping_effect_not_observed", 1)
+			}
+		}
 	}
 }
 
@@ -710,6 +792,17 @@ func (h *history) step(rng *rand.Rand, k int) {
 		} else {
 			p = h.pick(rng)
 		}
+		if h.taint[p.id] {
+			r.Count("deletes_skipped_tainted", 1)
+			return
+		}
+		if r.Race() {
+			// deleteNode mutates the revalidation lists under Table.mutex while the loop's
+			// tableRevalidation.run reads them without it: a data race that belongs to the
+			// reported deleteNode defect (known finding); keep the race variant about the rest.
+			tab.VerifGetNode(p.id)
+			return
+		}
 		was := where(pre, p.id)
 		tab.VerifDelete(h.latest(p))
 		post := h.check(tab.VerifSnapshot(), "deleteNode")
@@ -784,7 +877,7 @@ func (h *history) step(rng *rand.Rand, k int) {
 	case op < 86: // time passes: revalidation runs
 		d := time.Duration(200+rng.Intn(6000)) * time.Millisecond
 		h.clock.Run(d)
-		h.settle()
+		h.releasePings()
 		post := h.check(tab.VerifSnapshot(), "clock advance")
 		promoted, removed, revalidated := 0, 0, 0
 		for id := range post.entries {
@@ -859,7 +952,10 @@ func (h *history) concurrent(nops int) {
 					}
 					h.tab.VerifAddInbound(n)
 				case op < 52:
-					h.tab.VerifDelete(h.latest(p))
+					// deleteNode is not issued here: concurrently with a revalidation
+					// response it crashes the table loop (reported defect, exercised by the
+					// separate child scenario). A query instead.
+					h.tab.VerifGetNode(p.id)
 				case op < 60:
 					var found []*enode.Node
 					for i := rng.Intn(10); i > 0; i-- {
@@ -905,7 +1001,7 @@ func (h *history) concurrent(nops int) {
 
 func runHistory(r *vrt.Run, idx int, conc bool) {
 	rng := r.Rand("hist", idx)
-	h := &history{r: r, idx: idx, rng: rng, clock: new(mclock.Simulated), byID: map[enode.ID]*peer{}, conc: conc}
+	h := &history{r: r, idx: idx, rng: rng, clock: new(mclock.Simulated), byID: map[enode.ID]*peer{}, conc: conc, taint: map[enode.ID]bool{}}
 	h.nw = &network{dead: map[enode.ID]bool{}, current: map[enode.ID]*enode.Node{}, deadPings: map[enode.ID]int{}}
 	var selfID enode.ID
 	rng.Read(selfID[:])
@@ -923,6 +1019,10 @@ func runHistory(r *vrt.Run, idx int, conc bool) {
 	h.tab = tab
 	defer db.Close()
 	defer tab.VerifClose()
+	defer h.nw.shutdown()
+	h.nw.mu.Lock()
+	h.nw.gated = !conc
+	h.nw.mu.Unlock()
 	for i := 0; i < 10; i++ {
 		h.newPeer(rng)
 	}
@@ -963,6 +1063,10 @@ func run(r *vrt.Run) {
 		}
 		runHistory(r, i, conc)
 	})
+	if !r.Race() {
+		r.Logf("deleteNode vs revalidation response scenario")
+		runDelRace(r)
+	}
 	r.Require("adds_accepted", int64(n*10))
 	r.Require("closest_queries", int64(n*5))
 	r.Require("pings", int64(n*5))
